@@ -104,7 +104,17 @@ fn tokenize_check(buf: &[u8], context: &str, ctx: &mut Ctx, hint: &serde_json::V
             let valid = std::str::from_utf8(&raw).is_ok();
             cat.extend_from_slice(&raw);
             match t.token() {
-                Ok(_) => {}
+                Ok(tok) => {
+                    // the token as the public API hands it out can be displayed (every attribute it lists has a key
+                    // and a value) and has the type next() announced
+                    if tok.token_type != tt {
+                        return Err(format!("token() has type {:?}, next() returned {:?}: {}", tok.token_type, tt, show(&raw)));
+                    }
+                    let shown = tok.to_string();
+                    if tt == TokenType::EndTagToken && shown.contains('=') && !raw.contains(&b'=') {
+                        return Err(format!("the end tag {} is displayed with attributes it does not have: {shown}", show(&raw)));
+                    }
+                }
                 Err(e) => {
                     if valid {
                         return Err(format!("token()/tag_name()/tag_attr() failed ({e}) on a token whose bytes are valid UTF-8: {}", show(&raw)));
